@@ -93,6 +93,16 @@ func (eng *Engine) alloc0() string {
 	return n
 }
 
+// interior: the (non-nil) numeric value given to pointers into the middle of an object or to a local.
+func (eng *Engine) interior() string {
+	n := eng.smt.named("interior", "Int")
+	if !eng.refAxDone[n] {
+		eng.refAxDone[n] = true
+		eng.smt.addAx(n, "(> "+n+" 0)")
+	}
+	return n
+}
+
 func (eng *Engine) zeroTime() string {
 	// time.Time{} is year 1: far below any Unix-epoch based instant
 	return "(- 62135596800000000000)"
@@ -214,6 +224,10 @@ func (eng *Engine) indexConstVars(p *packages.Package) {
 						if o := p.TypesInfo.Defs[n]; o != nil {
 							cands[o] = vs.Values[i]
 						}
+					} else if cl, ok := vs.Values[i].(*ast.CompositeLit); ok && constLit(p.TypesInfo, cl) {
+						if o := p.TypesInfo.Defs[n]; o != nil {
+							cands[o] = vs.Values[i]
+						}
 					} else if call, ok := vs.Values[i].(*ast.CallExpr); ok {
 						// sentinel errors: var ErrX = errors.New("...") / fmt.Errorf(...)
 						if sel, ok := call.Fun.(*ast.SelectorExpr); ok {
@@ -259,6 +273,28 @@ func (eng *Engine) indexConstVars(p *packages.Package) {
 		eng.constVars[o] = e
 		eng.constVarInfo[o] = p.TypesInfo
 	}
+}
+
+// constLit: a struct literal all of whose elements are constants or nil.
+func constLit(info *types.Info, cl *ast.CompositeLit) bool {
+	if tv, ok := info.Types[cl]; !ok || tv.Type == nil {
+		return false
+	} else if _, isStruct := tv.Type.Underlying().(*types.Struct); !isStruct {
+		return false
+	}
+	for _, el := range cl.Elts {
+		if kv, ok := el.(*ast.KeyValueExpr); ok {
+			el = kv.Value
+		}
+		tv, ok := info.Types[el]
+		if !ok {
+			return false
+		}
+		if tv.Value == nil && !tv.IsNil() {
+			return false
+		}
+	}
+	return true
 }
 
 func (eng *Engine) findFunc(ref string) *FuncInfo {
@@ -444,6 +480,7 @@ type Exec struct {
 	havocGhosts bool
 	curCall  *ast.CallExpr
 	entryFresh int
+	keepGhosts bool
 }
 
 func (eng *Engine) newExec(fi *FuncInfo, c *Contract, prop string) *Exec {
@@ -850,6 +887,17 @@ func (ex *Exec) frameCheck(rec *recorder, pos token.Pos) {
 		if c.Havoc {
 			return
 		}
+		if c.HavocHeap {
+			// program state may change arbitrarily; ghost effect logs only as declared
+			for k := range rec.heap {
+				if !strings.HasPrefix(k, "G$") {
+					delete(rec.heap, k)
+				}
+			}
+			rec.all = false
+			ex.frameCheck(rec, pos)
+			return
+		}
 		ob := &Obligation{Prop: ex.prop, Func: c.Func, Name: obName(c) + "/frame:unknown-call", Kind: "frame", Pos: ex.pos(pos), Text: "the function calls code without a contract, so its frame cannot be established; declare `havoc` or give the callee a contract"}
 		ob.Script = "(check-sat)\n"
 		ob.Result = "engine"
@@ -864,10 +912,14 @@ func (ex *Exec) frameCheck(rec *recorder, pos token.Pos) {
 		sc.binds[k] = v
 	}
 	for _, cl := range c.Clauses {
-		if cl.Kind != "modifies" {
+		if cl.Kind != "modifies" && cl.Kind != "ghostupdate" {
 			continue
 		}
-		for _, item := range splitTopLevel(cl.Text, ',') {
+		text := cl.Text
+		if cl.Kind == "ghostupdate" {
+			text = cl.LetName
+		}
+		for _, item := range splitTopLevel(text, ',') {
 			item = strings.TrimSpace(item)
 			if item == "" || item == "nothing" {
 				continue
